@@ -1259,6 +1259,13 @@ Definition ex_panel : list series :=
 Definition ex_vals : list str := [L "Aa"; L "b"].
 Definition ex_header : list str := [L "% comment"; L "@relation demo"; L "@attribute a0 numeric"].
 
+Lemma ex_lab_ok v : In v ex_vals -> clab_ok v.
+Proof. intros [<-|[<-|[]]]; repeat split; discriminate. Qed.
+Lemma ex_tok_ok t : In t (List.concat ex_panel) -> tok_ok t /\ has ch_tab t = false.
+Proof.
+  cbn. intro H. repeat (destruct H as [<-|H]; [repeat split; reflexivity|]). destruct H.
+Qed.
+
 Lemma ex_hypotheses :
   opts_ok ex_opts /\ o_labels ex_opts <> [] /\ arff_header_ok ex_header /\ ex_panel <> [] /\
   Forall row_ok ex_panel /\ Forall (Forall (fun t => has ch_tab t = false)) ex_panel /\
@@ -1266,17 +1273,25 @@ Lemma ex_hypotheses :
   Forall clab_ok ex_vals /\ List.length ex_vals = List.length ex_panel /\
   vals_ok ex_opts ex_panel ex_vals.
 Proof.
-  assert (Hl : Forall clab_ok ex_vals).
-  { repeat constructor; try discriminate. }
-  repeat split; try discriminate; try exact Hl.
-  - repeat constructor; discriminate.
-  - intros _. discriminate.
-  - exists (L " a comment"). reflexivity.
-  - repeat constructor.
-  - repeat constructor; discriminate.
-  - repeat constructor.
-  - intros r [<-|[<-|[]]]; reflexivity.
-  - right. split; [discriminate|]. split; [reflexivity|]. repeat constructor; discriminate.
+  assert (Hl : Forall clab_ok ex_vals) by (apply Forall_forall; exact ex_lab_ok).
+  assert (Hl2 : Forall lab_ok ex_vals).
+  { apply Forall_forall. intros v Hv. apply ex_lab_ok. exact Hv. }
+  assert (Ht : forall r, In r ex_panel -> Forall (fun t => tok_ok t /\ has ch_tab t = false) r).
+  { intros r Hr. apply Forall_forall. intros t Ht. apply ex_tok_ok. apply in_concat. eauto. }
+  split.
+  { split; [split; [discriminate|reflexivity]|]. split; [reflexivity|]. split; [reflexivity|].
+    split; [exact Hl2|]. split; [intros _; discriminate|]. exists (L " a comment"). reflexivity. }
+  split; [discriminate|]. split.
+  { repeat constructor. }
+  split; [discriminate|]. split.
+  { apply Forall_forall. intros r Hr. split.
+    - destruct Hr as [<-|[<-|[]]]; discriminate.
+    - specialize (Ht r Hr). rewrite Forall_forall in *. intros t Hin. apply (Ht t Hin). }
+  split.
+  { apply Forall_forall. intros r Hr. specialize (Ht r Hr). rewrite Forall_forall in *.
+    intros t Hin. apply (Ht t Hin). }
+  split; [intros r [<-|[<-|[]]]; reflexivity|]. split; [exact Hl|]. split; [reflexivity|].
+  right. split; [discriminate|]. split; [reflexivity|exact Hl2].
 Qed.
 
 Lemma ex_roundtrip :
@@ -1285,3 +1300,64 @@ Lemma ex_roundtrip :
     Ok ([[[L "1.000000e+00"; L "-2.500000e-06"; L "3.000000e+09"]]; [[L "0.1"; L "7"; L "-0.25"]]],
         Some [L "aa"; L "b"]).
 Proof. eexists. split; [reflexivity|]. split; reflexivity. Qed.
+
+(* ------------------------------------------------------------------ the same, for the writer
+   driven by the header items regenerated from the source on this run (Gen.v, Bridge.v) *)
+Require Import SkV.C18.Gen SkV.C18.Bridge.
+
+Lemma code_ts_roundtrip o panel vals :
+  opts_ok o -> panel <> [] -> Forall row_ok panel -> vals_ok o panel vals ->
+  exists lines, write_ts_with gen_writer_header o panel vals = Ok lines /\
+    parse_ts lines = Ok (map (fun r => [map fnorm r]) panel,
+                         if is_nil (o_labels o) then None else Some (map lower vals)).
+Proof. rewrite bridge_write_ts. exact (ts_roundtrip o panel vals). Qed.
+
+Lemma code_ts_roundtrip_shape o panel vals lines rows labs :
+  opts_ok o -> panel <> [] -> Forall row_ok panel -> vals_ok o panel vals ->
+  write_ts_with gen_writer_header o panel vals = Ok lines -> parse_ts lines = Ok (rows, labs) ->
+  List.length rows = List.length panel /\
+  (forall i : nat, (i < List.length panel)%nat ->
+     exists s, nth i rows [] = [s] /\ List.length s = List.length (nth i panel []) /\
+       forall j : nat, nth j s [] = match nth_error (nth i panel []) j with
+                                    | Some t => fnorm t | None => [] end) /\
+  (o_labels o = [] -> labs = None) /\
+  (o_labels o <> [] -> labs = Some (map lower vals) /\ List.length vals = List.length panel).
+Proof. rewrite bridge_write_ts. exact (ts_roundtrip_shape o panel vals lines rows labs). Qed.
+
+Lemma code_writer_rejects_iff o panel vals :
+  write_ts_with gen_writer_header o panel vals = Err <->
+  (List.length panel <> List.length vals /\ vals <> []) \/
+  (o_equal_length o = true /\ o_series_length o = -1).
+Proof. rewrite bridge_write_ts. exact (write_ts_rejects_iff o panel vals). Qed.
+
+Lemma code_three_formats_agree o hdr m panel labs :
+  opts_ok o -> o_labels o <> [] -> arff_header_ok hdr ->
+  panel <> [] -> Forall row_ok panel -> Forall (Forall (fun t => has ch_tab t = false)) panel ->
+  (forall r, In r panel -> List.length r = m) ->
+  Forall clab_ok labs -> List.length labs = List.length panel ->
+  exists ts_lines X,
+    write_ts_with gen_writer_header o panel labs = Ok ts_lines /\
+    parse_arff (arff_file hdr panel labs) = Ok (X, labs) /\
+    parse_tsv (tsv_file panel labs) = Ok (X, labs) /\
+    parse_ts ts_lines = Ok (map (fun s => [s]) X, Some (map lower labs)) /\
+    X = map (map fnorm) panel.
+Proof. rewrite bridge_write_ts. exact (three_formats_agree o hdr m panel labs). Qed.
+
+Lemma code_split_none_is_train_then_test Xtr ytr Xte yte :
+  map part_name split_order = gen_split_order /\
+  load_dataset None (Ok (Xtr, Some ytr)) (Ok (Xte, Some yte)) = Ok (Xtr ++ Xte, ytr ++ yte) /\
+  load_dataset (Some Train) (Ok (Xtr, Some ytr)) (Ok (Xte, Some yte)) = Ok (Xtr, ytr) /\
+  load_dataset (Some Test) (Ok (Xtr, Some ytr)) (Ok (Xte, Some yte)) = Ok (Xte, yte).
+Proof. split; [exact bridge_split_order|apply split_none_is_train_then_test]. Qed.
+
+Lemma ex_nonvacuous :
+  (opts_ok ex_opts /\ o_labels ex_opts <> [] /\ arff_header_ok ex_header /\ ex_panel <> [] /\
+   Forall row_ok ex_panel /\ Forall (Forall (fun t => has ch_tab t = false)) ex_panel /\
+   (forall r, In r ex_panel -> List.length r = 3%nat) /\
+   Forall clab_ok ex_vals /\ List.length ex_vals = List.length ex_panel /\
+   vals_ok ex_opts ex_panel ex_vals) /\
+  exists lines, write_ts ex_opts ex_panel ex_vals = Ok lines /\ List.length lines = 11%nat /\
+    parse_ts lines =
+    Ok ([[[L "1.000000e+00"; L "-2.500000e-06"; L "3.000000e+09"]]; [[L "0.1"; L "7"; L "-0.25"]]],
+        Some [L "aa"; L "b"]).
+Proof. exact (conj ex_hypotheses ex_roundtrip). Qed.
